@@ -35,6 +35,8 @@ type L2Case struct {
 	Resets bool     `json:"resets"`
 	Args   []string `json:"args"`
 	Tags   []string `json:"tags,omitempty"`
+	Repeat int      `json:"repeat,omitempty"` // C14: generate this many more times with fresh Mockers
+	Fmts   bool     `json:"fmts,omitempty"`   // C16: also run the other formatters and compare
 }
 
 // L2Obs is what the implementation did on a case, plus the model input dumped from
@@ -48,6 +50,9 @@ type L2Obs struct {
 	Args        string `json:"args,omitempty"`   // Coq term of type list string
 	Unsupported string `json:"unsupported,omitempty"`
 	Millis      int64  `json:"ms"`
+	Repeats     int    `json:"repeats,omitempty"`
+	Nondet      string `json:"nondet,omitempty"` // first output that differs from the first run
+	Fmt         map[string]string `json:"fmt,omitempty"`
 }
 
 func cmdL2(args []string) {
@@ -260,6 +265,33 @@ func runL2Case(c L2Case, dumpOnly bool) (o L2Obs) {
 			return
 		}
 		o.Kind, o.Text = "out", buf.String()
+		gen := func(formatter string) (string, error) {
+			m, err := moq.New(moq.Config{SrcDir: ".", PkgName: c.Pkg, Formatter: formatter,
+				StubImpl: c.Stub, SkipEnsure: c.Skip, WithResets: c.Resets})
+			if err != nil {
+				return "", err
+			}
+			var b bytes.Buffer
+			if err := m.Mock(&b, c.Args...); err != nil {
+				return "", err
+			}
+			return b.String(), nil
+		}
+		for i := 0; i < c.Repeat; i++ {
+			s, err := gen("noop")
+			o.Repeats++
+			if err != nil {
+				o.Nondet = "error on repetition: " + err.Error()
+				break
+			}
+			if s != o.Text {
+				o.Nondet = s
+				break
+			}
+		}
+		if c.Fmts {
+			o.Fmt = fmtReport(o.Text, gen)
+		}
 	}()
 	return
 }
